@@ -66,6 +66,7 @@ type request struct {
 	httpStatus int    // HTTP: status of the response
 	opidForm   string // "" or "non-canonical" / "empty"
 	hdrShape   string // "plain", or what is special about the header block (empty-valued pair last, ...)
+	label      string // probes: overrides the kind name in signatures
 	rewritten  bool   // a reply arrived whose op id is this request's op id in another spelling
 	foreign    bool   // HTTP: the response frame carried another request's op id
 	taints     bool   // leaves a stream connection in an undefined state
@@ -85,6 +86,9 @@ type request struct {
 }
 
 func (r *request) kindName() string {
+	if r.label != "" {
+		return r.label
+	}
 	if r.sentinel {
 		return "sentinel"
 	}
@@ -337,8 +341,8 @@ func newRequest1(rng *rand.Rand, proto string, kind int, o genOpts) *request {
 		r.expBody = &e
 	case kUnknown:
 		r.method = []string{"nope", "Add", "echo2", "", "add ", "basePing.x", "écho"}[rng.Intn(7)] + fmt.Sprint(rng.Intn(50))
-		if r.method == "add" || r.method == "echo" {
-			r.method += "_"
+		if rng.Intn(4) != 0 {
+			r.method += "." + r.token // a name the server has never seen before
 		}
 		args = randTree(rng, 0)
 		r.expType = thrift.EXCEPTION
